@@ -76,9 +76,11 @@ def probe_programs(tick, unit):
         for tp in ([[2, 0.5]], [[2, 1]], [[2, 2]], [[1, 0.5], [1, 1]], [[1, 1], [1, 2]], [[1, 0.5], [1, 2]]):
             for sl in ([[2, 0.5]], [[2, 1]], [[2, 2]]):
                 reacts = [None] if len(tp) == 1 else [None, {'sl': 'breakeven'}, {'sl': 'all', 'sl_d': 0.5, 'tp': 'all', 'tp_d': 1.5},
-                                                           {'sl': 'all', 'sl_d': -0.5, 'tp': 'all', 'tp_d': 1.5}, {'sl': 'all', 'sl_d': -0.5, 'tp': 'all', 'tp_d': 2}]
+                                                           {'sl': 'all', 'sl_d': -0.5, 'tp': 'all', 'tp_d': 1.5}, {'sl': 'all', 'sl_d': -0.5, 'tp': 'all', 'tp_d': 2},
+                                                           {'liquidate': True}, {'reenter': [[1, 0]]}]      # MARKET orders from the fill handler
                 for rc in reacts:
-                    name = '%s tp%s sl%s react%s' % (side, tp, sl, 'N' if rc is None else 'B' if rc.get('sl') == 'breakeven' else 'X%s/%s' % (rc['sl_d'], rc['tp_d']))
+                    name = '%s tp%s sl%s react%s' % (side, tp, sl, 'N' if rc is None else 'B' if rc.get('sl') == 'breakeven' else 'L' if rc.get('liquidate') else 'R' if rc.get('reenter')
+                                                      else 'X%s/%s' % (rc['sl_d'], rc['tp_d']))
                     spec = {'tick': tick, 'unit': unit, 'side': side, 'enter': {'when': {'at': [0]}, 'legs': [[2, 0]]},
                             'on_open': {'sl': sl, 'tp': tp}, 'cancel_entry': True}
                     if rc:
